@@ -81,6 +81,10 @@ def run(ctx):
     if ctx.replay and g_refserver.owns_replay(ctx.replay):   # replay file written by the life-cycle leg
         g_refserver.leg(ctx)
         return
+    if ctx.replay and "fired" in json.load(open(ctx.replay)).get("scenario", {}):   # written by the process-protocol leg
+        binp = ctx.go_test_bin("internal/app/connectconformance", ["c11", "peers"], race=True)
+        process_protocol(ctx, binp, only=[json.load(open(ctx.replay))["scenario"]["kind"]])
+        return
     import g_sideband
     if ctx.replay and g_sideband.owns_replay(ctx.replay):   # replay file written by the side-channel leg
         g_sideband.leg(ctx)
